@@ -99,9 +99,29 @@ func checkC20Parse(c *Ctx, n int) {
 			continue
 		}
 		sd := &StructDesc{}
-		var visible []string
+		var visible, aliases []string
 		for k, nm := range names {
 			tag := "command:" + strconv.Quote(nm)
+			// half of the commands answer to one or two aliases as well: an alias selects the command, it
+			// is never suggested or enumerated, and nearness to an alias means nothing
+			for na := r.Intn(3); na > 0 && r.Intn(2) == 0; na-- {
+				var al string
+				switch rs := []rune(nm); r.Intn(3) {
+				case 0:
+					al = fmt.Sprintf("al%c%c", 'a'+rune(k%26), 'a'+rune(na))
+				case 1:
+					al = nm + "x"
+				default:
+					rs[r.Intn(len(rs))] = 'z'
+					al = string(rs)
+				}
+				if al == "" || seen[al] || strings.HasPrefix(al, "-") || strings.ContainsAny(al, "%\"\\`0123456789") {
+					continue
+				}
+				seen[al] = true
+				aliases = append(aliases, al)
+				tag += " alias:" + strconv.Quote(al)
+			}
 			if r.Intn(4) == 0 {
 				tag += ` hidden:"true"`
 			} else {
@@ -140,6 +160,13 @@ func checkC20Parse(c *Ctx, n int) {
 			given = false
 		case 1:
 			word = genNearWord(c, names)
+		case 4:
+			if len(aliases) > 0 {
+				// a word near an alias
+				word = wordAtDistance(c, aliases[r.Intn(len(aliases))], 1)
+				break
+			}
+			fallthrough
 		case 2, 3:
 			if len(outer) > 0 {
 				// the name or alias of a command of an outer level
@@ -167,7 +194,10 @@ func checkC20Parse(c *Ctx, n int) {
 		c.RunCases([]*Case{cs}, func(cr *CaseResult) {
 			c.classifyCase(cr)
 			for _, o := range parseBlocks(cr) {
-				in := map[string]interface{}{"names": names, "visible": visible, "word": word, "word_given": given, "argv": argv}
+				in := map[string]interface{}{"names": names, "visible": visible, "aliases": aliases, "word": word, "word_given": given, "argv": argv}
+				if len(aliases) > 0 {
+					c.Class("c20/with aliases")
+				}
 				if len(path) > 0 {
 					c.Class(fmt.Sprintf("c20/nested depth=%d", len(path)))
 				}
